@@ -179,7 +179,10 @@ class IoWorld(World):
             a, b = r.choice(ids), r.choice(ids)
             mids = [[pos[a][0] + r.uniform(-1, 1), pos[a][1] + r.choice([0.25, -1.5, r.uniform(-1, 1)])]
                     for _ in range(r.choice([0, 0, 1, 3]))]
-            edges.append(["e%d" % k, a, b, r.choice([0, 0, 1, -1]), [pos[a]] + mids + [pos[b]]])
+            eid = "e%d" % k
+            if k >= 1 and r.random() < 0.08:
+                eid = "e%d" % r.randrange(k)         # an identifier used again: the earlier edge is replaced
+            edges.append([eid, a, b, r.choice([0, 0, 1, -1]), [pos[a]] + mids + [pos[b]]])
         return {"kind": kind, "edges": edges}
 
     def _path(self, r, s, stem, ext, n=3):
@@ -339,6 +342,13 @@ class IoWorld(World):
                 "fmt": r.choice(self.cfg["formats"])}
 
     def _gen_mkfmt(self, r, s, q):
+        gpx = sorted(p for p, e in self.cat.items() if e["type"] == "gpx" and e["state"] == "acked")
+        if gpx and r.random() < 0.3:
+            # a GPX format object built now, used some steps later (after the formats may have changed)
+            path = r.choice(gpx)
+            q.append({"op": "set_read_format", "fmt": GPX_FMT, "s": s, "dt": 3})
+            q.append({"op": "read_gpx", "path": path, "api": "obj", "obj": "gf", "s": s, "dt": 1})
+            return {"op": "make_format", "name": "gf", "path": path, "gpx": True}
         cands = sorted(p for p, e in self.cat.items() if e["type"] == "csv")
         if not cands:
             return self._gen_setfmt(r, s, q)
@@ -598,6 +608,18 @@ class IoWorld(World):
     def op_make_format(self, st):
         from tracklib.io.track_format import TrackFormat
         e = self.cat.get(st["path"])
+        if st.get("gpx"):
+            if not e or e["type"] != "gpx":
+                raise Skip()
+            self._begin(st)
+            rv, exc = self.call(TrackFormat, {"ext": "GPX"})
+            if exc is not None:
+                self.fail("C13", "trackformat.raised", "TrackFormat({'ext': 'GPX'}) raised %r" % (exc,))
+                return "raised"
+            self.objs[(st.get("s", 0), st["name"])] = {"obj": rv, "path": st["path"], "gpx": True,
+                                                       "time_fmt": self.fmt_read}
+            self.observed(st["name"])
+            return
         if not e or e["type"] != "csv":
             raise Skip()
         self._begin(st)
@@ -622,6 +644,8 @@ class IoWorld(World):
         self._outcome = "ok"
         if api == "obj":
             o = self.objs.get((st.get("s", 0), st.get("obj")))
+            if o is not None and o.get("gpx"):
+                raise Skip()
             if o is None or o["path"] != st["path"] or o["ids"] != list(ids) or o["sep"] != e["sep"] \
                     or o["h"] != e["h"] or o["kind"] != kind:
                 raise Skip()
@@ -747,7 +771,15 @@ class IoWorld(World):
         if self.fmt_read not in GPX_OK_READ:
             raise Skip()
         self._outcome = "ok"
-        if st.get("api") == "shared":
+        if st.get("api") == "obj":
+            o = self.objs.get((st.get("s", 0), st.get("obj")))
+            if o is None or not o.get("gpx"):
+                raise Skip()
+            if o["time_fmt"] != self.fmt_read:
+                self.probe("stale_format_object_other_global")
+            self.probe("format_object_built_earlier")
+            rv, exc, fired = self._io_call(st, TrackReader.readFromFile, st["path"], o["obj"])
+        elif st.get("api") == "shared":
             from tracklib.io.track_format import TrackFormat
             d = self.opts.setdefault(st.get("s", 0), {})
             d.update({"ext": "GPX"})
@@ -824,16 +856,17 @@ class IoWorld(World):
         self._outcome = "ok"
         rv, exc, fired = self._io_call(st, TrackReader.readFromWkt, st["path"], 4, -1, 0, e["sep"], e["h"])
         if self._read_outcome(exc, fired, "netwkt.read.raised"):
-            exp = [[list(p) for p in ed[4]] for ed in e["net"]["edges"]]
+            held = self._net_edges(e["net"])
+            exp = [[list(p) for p in ed[4]] for ed in held]
             got = [[[o.position.getX(), o.position.getY()] for o in rv.getTrack(i)] for i in range(rv.size())]
             ids = [str(rv.getTrack(i).tid) for i in range(rv.size())]
             self.observed(len(got))
             if got != exp:
                 self.fail("C13", "netwkt.roundtrip.coords", "edge geometries read back as WKT tracks differ",
                           exp, got, file_h=e["h"])
-            elif ids != [ed[0] for ed in e["net"]["edges"]]:
+            elif ids != [ed[0] for ed in held]:
                 self.fail("C13", "netwkt.roundtrip.ids", "track identifiers read from the link_id column",
-                          [ed[0] for ed in e["net"]["edges"]], ids, file_h=e["h"])
+                          [ed[0] for ed in held], ids, file_h=e["h"])
             else:
                 self.probe("roundtrip_ok_netwkt")
         return self._outcome
@@ -865,7 +898,8 @@ class IoWorld(World):
         from tracklib.io.track_reader import TrackReader
         e = self.cat.get(st["path"])
         o = self.objs.get((st.get("s", 0), st.get("obj")))
-        if o is None or e is None or e["type"] != "csv" or e["state"] != "acked" or o["path"] == st["path"]:
+        if o is None or o.get("gpx") or e is None or e["type"] != "csv" or e["state"] != "acked" \
+                or o["path"] == st["path"]:
             raise Skip()
         self._begin(st)
         rv, exc = self.call(TrackReader.readFromFile, st["path"], o["obj"])
@@ -1000,9 +1034,20 @@ class IoWorld(World):
         self.observed("same")
         self.probe("roundtrip_ok_" + fmt)
 
+    @staticmethod
+    def _net_edges(spec):
+        """Edges a network built from `spec` holds: an identifier added twice keeps the place of
+        its first insertion and the definition given last (the dictionary the writer iterates)."""
+        last = {}
+        for ed in spec["edges"]:
+            last[ed[0]] = ed
+        return list(last.values())
+
     def _judge_network(self, e, net):
         spec = e["net"]
-        exp_edges = spec["edges"]
+        exp_edges = self._net_edges(spec)
+        if len(exp_edges) != len(spec["edges"]):
+            self.probe("network_with_a_replaced_edge")
         got_ids = list(net.getEdgesId())
         exp_ids = [ed[0] for ed in exp_edges]
         det = {"file_h": e["h"]}
